@@ -891,7 +891,9 @@ func TestVerifC18(t *testing.T) {
 			}
 			var usedA, usedB [3]int64
 			lastFilter := map[*c18Pod]int{} // 0 never called, 1 false, 2 true
-			if nEv > 0 && ((nOver == 0 && nProdOver == 0) || (nUnder == 0 && nProdUnder == 0) || nUnder == len(inPool)) {
+			// "all nodes are underused" (every node in an underused class, none overloaded) is a special case of
+			// "no node is overloaded", so two clauses suffice.
+			if nEv > 0 && ((nOver == 0 && nProdOver == 0) || (nUnder == 0 && nProdUnder == 0)) {
 				h.Fail("C18:evict-when-nothing-to-do", "round %d: %d evictions with over=%d prodOver=%d under=%d prodUnder=%d nodes=%d",
 					rd, nEv, nOver, nProdOver, nUnder, nProdUnder, len(inPool))
 			}
